@@ -10,7 +10,7 @@
   pub0_sock_send detaches the message from the aio before completing it.
 -/
 import NngModel.Proto.Base
-import NngModel.Generated.Consts
+import NngModel.Generated.C05
 namespace Nng.Pub
 open Nng Nng.Proto
 
